@@ -2,32 +2,39 @@
 C04 — BMS reading places every object at the time its measure position and tempo imply.
 Property theorems about the executable reader model `Reamber/Model/BMS.lean` (tied to
 reamber/bms/{BMSMap,BMSChannel,BMSMapMeta}.py by the correspondence check and by the generated layout tables)
-against the by-the-book denotation `Reamber/Spec/BMS.lean`.  Helper lemmas: `Lemmas/BMS.lean`, `Lemmas/BMSTime.lean`.
+against the by-the-book denotation `Reamber/Spec/BMS.lean`.  Helper lemmas: `Lemmas/BMS*.lean`.
 
-The full statement is now ONE theorem, `read_eq_denote`:
+The full statement is ONE theorem, `read_eq_denote` (and `read_file_eq_denote` for the FILE entry point):
 
   ∀ layout (LayoutOK: injective, columns < MAX_KEYS — the five generated layouts: `layouts_ok`) lines d,
-    denote layout lines = some d →
+    denoteText layout lines = some d →                       -- the specification's OWN lexer, header table, header record
     lanes in position order in the file (¬D05) → gridCompatible (grid 96) d.tempo (¬D22) →
-    ∃ hits holds, readNotes defaultGrid layout lines = .ok (hits, holds) ∧ hits ~ d.hits ∧ holds ~ d.holds ∧
-      ∀ c, read defaultGrid layout lines = .ok c → c.hits = hits ∧ c.holds = holds ∧ c.header = d.header
+    ∃ c, read defaultGrid layout lines = .ok c ∧ c.hits ~ d.hits ∧ c.holds ~ d.holds ∧ c.header = d.header ∧
+      (c.tempo = d.tempo ∨ d.tempo = _ :: c.tempo with c.tempo starting at (0,0)) ∧
+      interleaveB 0 false (inPts 0 c.tempo) (outPtsOff c.bpms)
 
-assembled from: the level-wide bridge "reader events = by-the-book objects" (`events_eq`, per pair
-`pairEvent_eq_objEvent`; `laneEvs_events` for a lane, `tempoOf_events_perm` for the tempo channels), the pairing
-invariant (`pairing_invariant`, `lanes_independent`, `loop_final`), the reader's tempo list against the
-by-the-book one (`model_tempo_cases`: equal, or its tail when the first tempo object overrides the header tempo),
-the times (`bms_times`: gridCompatible ⇒ `TimingMap.offsets` as run = `timeAt`, through C10's
-`offsets_correct_fromBcSnap` and `stableArgsort_sortsAsc` — no re-derivation hypothesis left), the flattening of
-lanes (`flatHits_perm`), and the header (`header_retained`).
-Also: the layout tables (`layouts_tie`, `layouts_wellformed`), `slot_position`, `hits_order_independent`, and
-the two counterexamples that make the hypotheses necessary (D05, D22).
-Still outside (stated in `read_eq_denote`'s docstring): success of the final `tm.reseat()` inside `read` (C11's
-domain — `readNotes`, everything before it, is proved to succeed), the byte lexer shared by `read` and `denote`,
-and one layout on both sides (generated vs by-the-book tables are related by `layouts_tie`).
+All hypotheses are about the file.  Assembled from
+* the two lexers: `trimBlank_eq_strip`, `bookLine_classify` (line classifier), `bookTable_eq_fold` (header dict),
+  `bookDoc_parseDoc` (line loop), `bookHeader_readHeader` (`_read_file_header`), `denoteText_eq_denote`; where they
+  part: `bookLine_none_iff`, `lexer_dialect_facts`; file splitting `pyLines_eq_fileLines`,
+  `read_file_splits_at_control_bytes`;
+* the semantic core `read_eq_denote_shared`: the level-wide bridge "reader events = by-the-book objects"
+  (`events_eq`, `laneEvs_events`, `tempoOf_events_perm`), the pairing invariant (`pairing_invariant`,
+  `lanes_independent`, `loop_final`), the reader's tempo list against the by-the-book one (`model_tempo_cases`), the
+  times (`bms_times` through C10's `offsets_correct_fromBcSnap`), the flattening of lanes (`flatHits_perm`);
+* the final `tm.reseat()`: `bms_tempo_in_reseat_dom` (grid-compatible 4/4 lists lie in C11's `Dom`, through
+  `dom_of_gridCompatible`), `finishRead_ok` (C10's `bcsOfBco_rederive` + C11's `fromBcSnap_reseat_keeps_times`).
+Also: the layout tables (`layouts_tie`, `layouts_wellformed`), `slot_position`, `hits_order_independent`,
+`metadata_retained`, and the two counterexamples that make the hypotheses necessary (D05, D22).
+Still shared by model and specification: the number parsers (`parseFloat`, `parseNat`, `parseHex2`) and one layout on
+both sides (`layouts_tie` relates generated and by-the-book tables); the shift_jis codec is not modelled.
 -/
 import Reamber.Lemmas.BMS
 import Reamber.Lemmas.BMSTime
 import Reamber.Lemmas.BMSAssemble
+import Reamber.Lemmas.BMSReseat
+import Reamber.Lemmas.BMSLex
+import Reamber.Lemmas.BMSHeaderBook
 import Reamber.Props.C10
 
 namespace Reamber.BMS
@@ -347,6 +354,78 @@ theorem gridCompatible_tail {g : List Rat} {a : BcSnap} {rest : List BcSnap} (h 
   | nil => rfl
   | cons b r => exact (gridCompatible_cons h).2
 
+
+/-! ### the final `tm.reseat()` -/
+
+theorem wfB_of_bmsChange (cs : List BcSnap) (hall : cs.all bmsChange = true) :
+    wfB cs = true ∧ ∀ c ∈ cs, c.met = 4 := by
+  simp only [List.all_eq_true] at hall
+  constructor
+  · simp only [wfB, List.all_eq_true]
+    intro c hc
+    have h := hall c hc
+    simp only [bmsChange, Bool.and_eq_true, decide_eq_true_eq] at h
+    obtain ⟨⟨⟨⟨⟨h1, h2⟩, h3⟩, h4⟩, h5⟩, h6⟩ := h
+    simp only [wfOne, Bool.and_eq_true, decide_eq_true_eq, h1, h2, h3, h4, h5, h6, and_true, true_and]
+    norm_num
+  · intro c hc
+    exact (bmsChange_wf (hall c hc)).2
+
+/-- **The reader's tempo list lies in C11's domain.**  Every ascending list of reader-built 4/4 tempo changes that
+starts at measure 0 beat 0 and is grid-compatible on the shipped grid of 96 (¬D22) satisfies all of C11's
+hypotheses `Dom` for the shipped threshold 1/1000: the fractional part of every beat distance is 0 or at least
+1/96, so branch 2 of the reseat loop never fires (¬D16) and no gap is tiny (¬D16b). -/
+theorem bms_tempo_in_reseat_dom (cs : List BcSnap) (hall : cs.all bmsChange = true) (hs : sortedSnaps cs = true)
+    (h0 : firstAtZero cs = true) (hgc : gridCompatible (grid defaultMaxDiv) cs = true) :
+    Dom extendThreshold cs := by
+  obtain ⟨hwf, hmet⟩ := wfB_of_bmsChange cs hall
+  have h0' : firstZeroB cs = true := by
+    cases cs with
+    | nil => simp [firstAtZero] at h0
+    | cons c r => simpa [firstZeroB, firstAtZero] using h0
+  exact dom_of_gridCompatible (N := defaultMaxDiv) (by decide) extendThreshold
+    (by unfold extendThreshold defaultMaxDiv; norm_num) (by unfold extendThreshold; norm_num) cs hwf hmet hs h0' hgc
+
+/-- **`_read_notes` after the timed notes: the re-derivation and `tm.reseat()` succeed.**  With the tempo list `cs`
+of `bms_times` and the timing map `tm` built from it: `bpm_changes_offset_to_snap` gives `cs` back (C10's
+`bcsOfBco_rederive`), `from_bpm_changes_snap(0, cs)` with reseating succeeds (C11's `Dom`, by
+`bms_tempo_in_reseat_dom`), and the stored tempo list `tm2` contains every change of `cs` at its own millisecond
+position, in order, first on first, last on last, with at most one inserted point per interval. -/
+theorem finishRead_ok (st : St) (hits : List HitOut) (holds : List HoldOut) (tm : List BcOff) (cs : List BcSnap)
+    (ht : timedNotes defaultGrid st = .ok (hits, holds, tm, cs))
+    (hall : cs.all bmsChange = true) (hs : sortedSnaps cs = true)
+    (h0 : firstAtZero cs = true) (hgc : gridCompatible (grid defaultMaxDiv) cs = true)
+    (htm : fromBcSnap 0 cs false = .ok tm) :
+    ∃ tm2, finishRead defaultGrid st = .ok (hits, holds, tm2, cs) ∧
+      interleaveB 0 false (inPts 0 cs) (outPtsOff tm2) = true := by
+  have hwf : wfChanges cs = true := by
+    simp only [wfChanges, List.all_eq_true] at hall ⊢
+    exact fun c hc => (bmsChange_wf (hall c hc)).1
+  have hm : metronomeOk cs = true :=
+    metronomeOk_of_const cs (fun c hc => (bmsChange_wf (List.all_eq_true.mp hall c hc)).2)
+  have hgc' : gridCompatible defaultGrid.toList cs = true := by simpa [defaultGrid] using hgc
+  have hre := bcsOfBco_rederive (g := defaultGrid) (gridOK_grid (by decide)) 0 cs hwf hs h0 hgc' hm
+  have hdom := bms_tempo_in_reseat_dom cs hall hs h0 hgc
+  obtain ⟨tm2, h2, hint⟩ := fromBcSnap_reseat_keeps_times 0 cs hdom
+  have htmOf : tm = tmOf 0 cs := by
+    have h1 := fromBcSnapNoReseat_eq 0 cs hwf hs h0
+    unfold fromBcSnap at htm
+    rw [sortBcSnap_eq_self hs] at htm
+    cases cs with
+    | nil => simp [firstAtZero] at h0
+    | cons c rest =>
+      simp only [firstAtZero, Bool.and_eq_true, decide_eq_true_eq] at h0
+      simp [h0.1, h0.2, h1] at htm
+      exact htm.symm
+  subst htmOf
+  refine ⟨tm2, ?_, hint⟩
+  have hhead : (((tmOf 0 cs).head?.map (·.offset)).getD 0) = 0 := by
+    cases cs with
+    | nil => simp [firstAtZero] at h0
+    | cons c rest => exact tmOf_head_offset 0 c rest
+  unfold finishRead
+  simp only [ht, hre, liftT, bind, Except.bind, hhead, h2]
+
 /-- the whole reader in terms of its parts -/
 theorem read_of_parts (g : Array Rat) (lay : Layout) (lines : List Bytes) (doc : Doc) (hdr : Header) (st : St)
     (hdoc : parseDoc lines = .ok doc) (hhdr : readHeader doc.header = .ok hdr) (hb : 0 < hdr.bpm0)
@@ -374,28 +453,26 @@ theorem read_of_parts (g : Array Rat) (lay : Layout) (lines : List Bytes) (doc :
           rw [← hc, ← hr]
           exact ⟨rfl, rfl, rfl⟩
 
-/-- **`read` = `denote`: BMS reading places every object where the book says.**
+/-- the reader after a successful `finishRead` -/
+theorem read_of_finish (g : Array Rat) (lay : Layout) (lines : List Bytes) (doc : Doc) (hdr : Header) (st : St)
+    (hdoc : parseDoc lines = .ok doc) (hhdr : readHeader doc.header = .ok hdr) (hb : 0 < hdr.bpm0)
+    (hst : foldlE applyEv (initSt hdr.bpm0) (events ⟨lay, hdr.lnEnd, hdr.exbpms, hdr.samples⟩ doc.notes) = .ok st)
+    (r : List HitOut × List HoldOut × List BcOff × List BcSnap) (hf : finishRead g st = .ok r) :
+    read g lay lines = .ok ⟨hdr, r.1, r.2.1, r.2.2.1, r.2.2.2⟩ := by
+  have hb' : ¬ hdr.bpm0 ≤ 0 := not_le.mpr hb
+  simp [read, hdoc, hhdr, hb', hst, hf]
 
-For every layout that is injective with columns below `MAX_KEYS` (`LayoutOK`; the five generated layouts are:
-`layouts_ok`), and every text that has a by-the-book meaning `d` (`denote`), whose lanes are in position order in
-the file (¬D05) and whose tempo list is grid-compatible on the shipped grid of 96 (¬D22): the reader — line
-classifier, header tables, the per-pair loop with its per-lane stacks, the measure-0 override, the stable sort,
-`from_bpm_changes_snap`, and `TimingMap.offsets` as the model runs it — produces, up to the order of rows, exactly
-the hits and holds of `d`: same columns, same samples, times `timeAt` of the by-the-book tempo list, hold lengths
-tail − head; and every chart `read` returns carries these rows and the header record of `d`.
-
-No hypothesis about events is left: "the reader's events are the by-the-book objects" is proved level-wide
-(`events_eq`, `laneEvs_events`, `tempoOf_events_perm`).  Still outside this theorem (hence the two-part
-conclusion): that the final `tm.reseat()` of `read` succeeds (C11's domain; `readNotes` — everything before it —
-is shown to succeed); the byte lexer is shared by `read` and `denote`; the layout is the same on both sides
-(`layouts_tie` relates generated and by-the-book tables). -/
-theorem read_eq_denote (lay : Layout) (hlay : LayoutOK lay) (lines : List Bytes) (d : Denotation)
+/-- **`read` = `denote` on the shared lexer** (the semantic core of `read_eq_denote`; `denote` lexes with the
+reader's own classifier).  Same statement as `read_eq_denote`, with `denote` / `parseDoc` in place of
+`denoteText` / `bookDoc`. -/
+theorem read_eq_denote_shared (lay : Layout) (hlay : LayoutOK lay) (lines : List Bytes) (d : Denotation)
     (hden : denote lay lines = some d)
     (hord : ∀ doc, parseDoc lines = .ok doc → LanesInOrder lay doc.notes)
     (hgc : gridCompatible (grid defaultMaxDiv) d.tempo = true) :
-    ∃ hits holds, readNotes defaultGrid lay lines = .ok (hits, holds) ∧
-      (hits.map HitOut.toD).Perm d.hits ∧ (holds.map HoldOut.toD).Perm d.holds ∧
-      ∀ c, read defaultGrid lay lines = .ok c → c.hits = hits ∧ c.holds = holds ∧ c.header = d.header := by
+    ∃ c, read defaultGrid lay lines = .ok c ∧
+      (c.hits.map HitOut.toD).Perm d.hits ∧ (c.holds.map HoldOut.toD).Perm d.holds ∧ c.header = d.header ∧
+      (c.tempo = d.tempo ∨ ((∃ h, d.tempo = h :: c.tempo) ∧ firstAtZero c.tempo = true)) ∧
+      interleaveB 0 false (inPts 0 c.tempo) (outPtsOff c.bpms) = true := by
   -- take the denotation apart
   unfold denote at hden
   cases hdoc : parseDoc lines with
@@ -505,19 +582,21 @@ theorem read_eq_denote (lay : Layout) (hlay : LayoutOK lay) (lines : List Bytes)
     intro y hy
     exact zero_le_snap (c := hdrC.snap) ⟨rfl, rfl⟩ (hSmem y hy).2
   -- the tempo list handed to the timing engine, and its relation to the by-the-book list
-  obtain ⟨csM, hcsM, hMall, hMsorted, hM0, hMgc, hMtime⟩ :
+  obtain ⟨csM, hcsM, hMall, hMsorted, hM0, hMgc, hMtime, hMrel⟩ :
       ∃ csM, sortBcSnap (dropOverridden st'.bcsRev.reverse) = csM ∧ csM.all bmsChange = true ∧ sortedSnaps csM = true ∧
         firstAtZero csM = true ∧ gridCompatible (grid defaultMaxDiv) csM = true ∧
-        ∀ q : Snap, 0 ≤ q.measure ∧ 0 ≤ q.beat → timeAt 0 csM q = timeAt 0 (hdrC :: S) q := by
+        (∀ q : Snap, 0 ≤ q.measure ∧ 0 ≤ q.beat → timeAt 0 csM q = timeAt 0 (hdrC :: S) q) ∧
+        (csM = hdrC :: S ∨ (S = csM ∧ firstAtZero csM = true)) := by
     rw [hbcs]
     rcases model_tempo_cases hdrC _ _ hperm hstrict ⟨rfl, rfl⟩ (fun y hy => (hY y hy).2) with h | ⟨h, y0, rest, hrest, hy0⟩
-    · refine ⟨_, h, ?_, hcsSorted, by simp [firstAtZero, hdrC], hgc, fun _ _ => rfl⟩
+    · refine ⟨_, h, ?_, hcsSorted, by simp [firstAtZero, hdrC], hgc, fun _ _ => rfl, Or.inl rfl⟩
       simp only [List.all_cons, hhdrChange, Bool.true_and, List.all_eq_true]
       exact fun y hy => (hSmem y hy).1
-    · refine ⟨_, h, ?_, hSsorted, ?_, gridCompatible_tail hgc, ?_⟩
+    · have hfz : firstAtZero (sortBcSnap (t3 ++ t8)) = true := by
+        rw [hrest]; simp [firstAtZero, hy0.1, hy0.2]
+      refine ⟨_, h, ?_, hSsorted, hfz, gridCompatible_tail hgc, ?_, Or.inr ⟨rfl, hfz⟩⟩
       · simp only [List.all_eq_true]
         exact fun y hy => (hSmem y hy).1
-      · rw [hrest]; simp [firstAtZero, hy0.1, hy0.2]
       · intro q hq
         have hrest' : S = y0 :: rest := hrest
         rw [hrest', hrest]
@@ -601,8 +680,14 @@ theorem read_eq_denote (lay : Layout) (hlay : LayoutOK lay) (lines : List Bytes)
     · simp only [he, hl, if_false, Bool.false_eq_true, hoffH, hoffHead, hoffTail, List.map_map]
       simp only [Function.comp_def]
       rw [z1, z2]
-  obtain ⟨hrn, hrd⟩ := read_of_parts defaultGrid lay lines doc hdr st' hdoc hhdr hbpm hst' _ _ tm csM htimed
-  refine ⟨_, _, hrn, ?_, ?_, hrd⟩
+  obtain ⟨tm2, hfin, hint⟩ := finishRead_ok st' _ _ tm csM htimed hMall hMsorted hM0 hMgc htm
+  have hread := read_of_finish defaultGrid lay lines doc hdr st' hdoc hhdr hbpm hst' _ hfin
+  refine ⟨_, hread, ?_, ?_, rfl, ?_, hint⟩
+  rotate_left 2
+  · -- the tempo list handed to the timing engine: the by-the-book one, or its tail when the header tempo is overridden
+    rcases hMrel with h | ⟨h, hz⟩
+    · exact Or.inl h
+    · exact Or.inr ⟨⟨hdrC, by rw [h]⟩, hz⟩
   · -- hits
     have hTeq : ∀ p ∈ flatHits st', T p.2.snap = timeAt 0 (hdrC :: S) p.2.snap := fun p hp => hMtime _ (hflatH p hp)
     have h1 := flatHits_perm lay hlay st' PL (timeAt 0 (hdrC :: S)) (fun lane hl => (hLanes lane hl).1)
@@ -624,6 +709,72 @@ theorem read_eq_denote (lay : Layout) (hlay : LayoutOK lay) (lines : List Bytes)
     intro p hp
     simp [HoldOut.toD, (hTeq p hp).1, (hTeq p hp).2]
 
+/-- **`read` = `denoteText`: BMS reading places every object where the book says.**
+
+For every layout that is injective with columns below `MAX_KEYS` (`LayoutOK`; the five generated layouts are:
+`layouts_ok`), and every text that has a by-the-book meaning `d` — `denoteText`: the specification's OWN lexer
+(`bookLine`, `bookTable`, `bookDoc`, written independently of the reader's classifier) and semantics — whose lanes
+are in position order in the file (¬D05) and whose tempo list is grid-compatible on the shipped grid of 96 (¬D22):
+`BMSMap.read` — `strip`, the `split`-and-slice line classifier, the insertion-ordered header dict, the header
+tables, the per-pair loop with its per-lane stacks, the measure-0 override, the stable sort,
+`from_bpm_changes_snap`, `TimingMap.offsets` as the model runs it, the re-derivation of the tempo positions and the
+final `tm.reseat()` — SUCCEEDS and returns a chart `c` with
+* exactly the hits and holds of `d` up to the order of rows: same columns, same samples, times `timeAt` of the
+  by-the-book tempo list, hold lengths tail − head;
+* the header record of `d`;
+* a stored tempo list `c.bpms` that contains every tempo change of the list handed to the timing engine — which
+  is the by-the-book list `d.tempo`, or its tail when a tempo object on measure 0 position 0 replaces the `#BPM`
+  header — at its own millisecond position, in order, first on first, last on last, with at most one inserted
+  (measure-line) point per interval (C11's `interleaveB 0 false`, exact equality).
+
+All hypotheses are about the FILE.  The success of the final reseat is no longer assumed: the reader's tempo list is
+proved to lie in C11's domain (`bms_tempo_in_reseat_dom`: grid-compatible on 96 ⇒ no D16 branch, no tiny gap), and
+C11's `fromBcSnap_reseat_keeps_times` is applied.  The header record of `d` is the specification's own
+(`bookHeader`: `#TITLE`/`#ARTIST`/`#PLAYLEVEL`/`#LNOBJ`, the `#BPMxx`/`#WAVxx` tables by `bookTable`, `#BPM`, the other
+headers), proved equal to `_read_file_header`'s (`bookHeader_readHeader`).  Shared with the specification: the decimal
+parser `parseFloat` / `parseNat` / `parseHex2`, and one layout on both sides (`layouts_tie` relates generated and
+by-the-book tables). -/
+theorem read_eq_denote (lay : Layout) (hlay : LayoutOK lay) (lines : List Bytes) (d : Denotation)
+    (hden : denoteText lay lines = some d)
+    (hord : ∀ doc, bookDoc lines = some doc → LanesInOrder lay doc.notes)
+    (hgc : gridCompatible (grid defaultMaxDiv) d.tempo = true) :
+    ∃ c, read defaultGrid lay lines = .ok c ∧
+      (c.hits.map HitOut.toD).Perm d.hits ∧ (c.holds.map HoldOut.toD).Perm d.holds ∧ c.header = d.header ∧
+      (c.tempo = d.tempo ∨ ((∃ h, d.tempo = h :: c.tempo) ∧ firstAtZero c.tempo = true)) ∧
+      interleaveB 0 false (inPts 0 c.tempo) (outPtsOff c.bpms) = true := by
+  obtain ⟨hden', doc, hb, hp, _, _⟩ := denoteText_eq_denote lay lines d hden
+  apply read_eq_denote_shared lay hlay lines d hden' _ hgc
+  intro doc' hdoc'
+  rw [hp] at hdoc'
+  injection hdoc' with e
+  subst e
+  exact hord doc hb
+
+/-- **The same through the FILE entry point**: `BMSMap.read_file` on the bytes of a file (`readFile`: Python's
+`readlines()` line splitting, then `read`) against the by-the-book meaning of the file — its bytes split at LF, CRLF
+or bare CR (`fileLines`), then `denoteText` — for every file that holds none of the control bytes VT, FF, FS, GS, RS
+(Python also cuts lines there: dialect, `read_file_splits_at_control_bytes`).  The codec is not modelled. -/
+theorem read_file_eq_denote (lay : Layout) (hlay : LayoutOK lay) (bytes : Bytes) (d : Denotation)
+    (hx : ∀ c ∈ bytes, pyExoticSep c = false)
+    (hden : denoteText lay (fileLines bytes) = some d)
+    (hord : ∀ doc, bookDoc (fileLines bytes) = some doc → LanesInOrder lay doc.notes)
+    (hgc : gridCompatible (grid defaultMaxDiv) d.tempo = true) :
+    ∃ c, readFile defaultGrid lay bytes = .ok c ∧
+      (c.hits.map HitOut.toD).Perm d.hits ∧ (c.holds.map HoldOut.toD).Perm d.holds ∧ c.header = d.header ∧
+      (c.tempo = d.tempo ∨ ((∃ h, d.tempo = h :: c.tempo) ∧ firstAtZero c.tempo = true)) ∧
+      interleaveB 0 false (inPts 0 c.tempo) (outPtsOff c.bpms) = true := by
+  unfold readFile
+  rw [pyLines_eq_fileLines bytes hx]
+  exact read_eq_denote lay hlay (fileLines bytes) d hden hord hgc
+
+/-- dialect fact behind the hypothesis of `read_file_eq_denote`: a form feed inside a header value ends the line for
+`read_file` (Python's `splitlines`), not for the format -/
+theorem read_file_splits_at_control_bytes :
+    pyLines ("#TITLE a".toList ++ [Char.ofNat 12] ++ "b\n#BPM 120".toList) = ["#TITLE a".toList, "b".toList, "#BPM 120".toList] ∧
+    fileLines ("#TITLE a".toList ++ [Char.ofNat 12] ++ "b\n#BPM 120".toList) =
+      ["#TITLE a".toList ++ [Char.ofNat 12] ++ "b".toList, "#BPM 120".toList] := by
+  decide +kernel
+
 /-- the five generated layouts satisfy what `read_eq_denote` asks of a layout -/
 theorem layouts_ok : ∀ n ∈ Generated.BMS.layoutNames, ∀ l, layoutOf n = some l → LayoutOK l := by
   have key : ∀ n ∈ Generated.BMS.layoutNames, ∀ l, layoutOf n = some l →
@@ -634,41 +785,119 @@ theorem layouts_ok : ∀ n ∈ Generated.BMS.layoutNames, ∀ l, layoutOf n = so
   obtain ⟨a, b, c, d, e⟩ := key n hn l hl
   exact layoutOK_of l a b c d e
 
-/-- non-vacuity of `read_eq_denote`: a BME text with a long note, two hits and a sample table satisfies every
-hypothesis (meaning defined, lanes in position order, tempo list grid-compatible) -/
+/-- non-vacuity of `read_eq_denote`: a BME text with a long note, two hits, a sample table, a comment line, a
+blank line, an ignored command, padded line ends and a header defined twice satisfies every hypothesis (meaning
+defined by the specification's own lexer, lanes in position order, tempo list grid-compatible) -/
 example :
-    let lines := ["#BPM 120".toList, "#LNOBJ ZZ".toList, "#WAV01 k.wav".toList, "#00111:0100ZZ00".toList,
+    let lines := ["#BPM 100".toList, "  #BPM 120\r\n".toList, "*---- MAIN DATA".toList, [], "#ENDIF".toList,
+                  "#LNOBJ ZZ".toList, "#WAV01 k.wav".toList, "#00111:0100ZZ00".toList,
                   "#00112:00010002".toList, "#00211:02".toList]
-    ∃ l d, layoutOf "BME" = some l ∧ denote l lines = some d ∧
-      (∀ doc, parseDoc lines = .ok doc → LanesInOrder l doc.notes) ∧
+    ∃ l d, layoutOf "BME" = some l ∧ denoteText l lines = some d ∧
+      (∀ doc, bookDoc lines = some doc → LanesInOrder l doc.notes) ∧
       gridCompatible (grid defaultMaxDiv) d.tempo = true ∧ d.hits.length = 3 ∧ d.holds.length = 1 := by
   intro lines
   have h1 : (match layoutOf "BME" with
-      | some l => (match denote l lines with
-        | some d => decide (d.hits.length = 3 ∧ d.holds.length = 1 ∧ d.tempo.length = 1) &&
-            (match parseDoc lines with
-             | .ok doc => decide (∀ lane ∈ l.lanes, sortObjs (laneObjs doc.notes lane.1) = laneObjs doc.notes lane.1)
-             | .error _ => false)
+      | some l => (match denoteText l lines with
+        | some d => decide (d.hits.length = 3 ∧ d.holds.length = 1 ∧ d.tempo = [⟨120, 4, ⟨0, 0, some 4⟩⟩]) &&
+            (match bookDoc lines with
+             | some doc => decide (∀ lane ∈ l.lanes, sortObjs (laneObjs doc.notes lane.1) = laneObjs doc.notes lane.1)
+             | none => false)
         | none => false)
       | none => false) = true := by decide +kernel
   cases hl : layoutOf "BME" with
   | none => simp [hl] at h1
   | some l =>
-    cases hd : denote l lines with
+    cases hd : denoteText l lines with
     | none => simp [hl, hd] at h1
     | some d =>
-      cases hdoc : parseDoc lines with
-      | error e => simp [hl, hd, hdoc] at h1
-      | ok doc =>
+      cases hdoc : bookDoc lines with
+      | none => simp [hl, hd, hdoc] at h1
+      | some doc =>
         simp only [hl, hd, hdoc, Bool.and_eq_true, decide_eq_true_eq] at h1
         refine ⟨l, d, rfl, hd, ?_, ?_, h1.1.1, h1.1.2.1⟩
         · intro doc' hdoc'
           injection hdoc' with e
           subst e
           exact h1.2
-        · have : d.tempo.length = 1 := h1.1.2.2
-          match hdt : d.tempo, this with
-          | [c], _ => rfl
+        · rw [h1.1.2.2]; rfl
+
+/-! ### the two lexers -/
+
+/-- **Where the reader's lexer and the specification's part** (dialect facts: the reader is more liberal than the
+format; the specification is silent there, so nothing is demanded).  A command longer than `#mmmcc` (the reader
+slices `[1:4]`, `[4:6]` and ignores the rest), a short one (`#1:01` reads as measure `1`, channel empty), a
+channel that is not alphanumeric; and the lines both reject: a lone `#` (`IndexError`), two colons, no colon
+(`ValueError`).  Each of these lines is in the harness corpus, so the model side of every clause is replayed on
+the real code on every run. -/
+theorem lexer_dialect_facts :
+    (bookLine "#001111:01".toList = none ∧ classify "#001111:01".toList = .ok (.note "001".toList "11".toList "01".toList)) ∧
+    (bookLine "#1:01".toList = none ∧ classify "#1:01".toList = .ok (.note "1".toList [] "01".toList)) ∧
+    (bookLine "#0011*:01".toList = none ∧ classify "#0011*:01".toList = .ok (.note "001".toList "1*".toList "01".toList)) ∧
+    (bookLine "#".toList = none ∧ classify "#".toList = .error (.timing .index)) ∧
+    (bookLine "#001:11:01".toList = none ∧ classify "#001:11:01".toList = .error (.timing .value)) ∧
+    (bookLine "#00111".toList = none ∧ classify "#00111".toList = .error (.timing .value)) := by
+  decide +kernel
+
+/-- … and nowhere else: a line the specification's lexer is silent on is, after trimming, a lone `#`, or a
+space-free word `#d…` (d a digit) that is not `#dddcc:data` with digits `ddd`, alphanumeric `cc` and colon-free
+data. -/
+theorem bookLine_none_iff (raw : Bytes) :
+    bookLine raw = none ↔
+      ∃ body, trimBlank raw = '#' :: body ∧ body.contains ' ' = false ∧
+        (body = [] ∨ ∃ d rest, body = d :: rest ∧ isDigit d = true ∧
+          ¬ ∃ m2 m3 c1 c2 data, rest = m2 :: m3 :: c1 :: c2 :: ':' :: data ∧ isDigit m2 = true ∧ isDigit m3 = true ∧
+            isAlnum c1 = true ∧ isAlnum c2 = true ∧ data.contains ':' = false) := by
+  unfold bookLine
+  generalize trimBlank raw = line
+  constructor
+  · intro h
+    cases line with
+    | nil => simp at h
+    | cons c body =>
+      by_cases hc : c = '#'
+      rotate_left
+      · exfalso
+        split at h
+        · rename_i heq
+          injection heq with h1 _
+          exact hc h1
+        · cases h
+      · subst hc
+        refine ⟨body, rfl, ?_⟩
+        simp only at h
+        by_cases hsp : body.contains ' ' = true
+        · rw [if_pos hsp] at h; cases h
+        · have hsp0 : body.contains ' ' = false := (Bool.not_eq_true _).mp hsp
+          refine ⟨hsp0, ?_⟩
+          simp only [hsp0, Bool.false_eq_true, if_false] at h
+          cases body with
+          | nil => exact Or.inl rfl
+          | cons d rest =>
+            right
+            simp only at h
+            by_cases hd : isDigit d = true
+            rotate_left
+            · simp [hd] at h
+            · refine ⟨d, rest, rfl, hd, ?_⟩
+              rintro ⟨m2, m3, c1, c2, data, rfl, g2, g3, g4, g5, g6⟩
+              simp only [hd, if_true] at h
+              rw [if_pos (by rw [g2, g3, g4, g5, g6]; rfl)] at h
+              cases h
+  · rintro ⟨body, rfl, hsp, hb⟩
+    simp only [hsp, Bool.false_eq_true, if_false]
+    rcases hb with rfl | ⟨d, rest, rfl, hd, hno⟩
+    · rfl
+    · simp only [hd, if_true]
+      split
+      · rename_i m1 m2 m3 c1 c2 data heq
+        simp only [List.cons.injEq] at heq
+        obtain ⟨rfl, rfl⟩ := heq
+        by_cases hg : (isDigit m2 && isDigit m3 && isAlnum c1 && isAlnum c2 && !(data.contains ':')) = true
+        · exfalso
+          simp only [Bool.and_eq_true, Bool.not_eq_true'] at hg
+          exact hno ⟨m2, m3, c1, c2, data, rfl, hg.1.1.1.1, hg.1.1.1.2, hg.1.1.2, hg.1.2, hg.2⟩
+        · rw [if_neg hg]
+      · rfl
 
 /-! ### header -/
 
@@ -724,5 +953,45 @@ theorem header_retained (g : Array Rat) (lay lay' : Layout) (lines : List Bytes)
         · cases hd
         · injection hd with hd; rw [← hd]
       rw [hc, hdh]
+
+/-- **The metadata header fields are retained** (by the book, not through `readHeader`): for a text with a meaning,
+the chart `read` returns has title / artist / level / `#LNOBJ` id equal to the value of the LAST `#TITLE` /
+`#ARTIST` / `#PLAYLEVEL` / `#LNOBJ` line of the file (empty bytes when there is none — D43), initial tempo the
+decimal value of the last `#BPM` line, and the extended-tempo and sample tables, and the other headers, of the
+by-the-book header record. -/
+theorem metadata_retained (lay : Layout) (lines : List Bytes) (d : Denotation) (c : Chart)
+    (hden : denoteText lay lines = some d) (hr : read defaultGrid lay lines = .ok c) :
+    ∃ ls, allSome (lines.map bookLine) = some ls ∧
+      let defs := ls.filterMap Line.headerOf
+      c.header = d.header ∧
+      c.header.title = (lastValue "TITLE".toList defs).getD [] ∧
+      c.header.artist = (lastValue "ARTIST".toList defs).getD [] ∧
+      c.header.version = (lastValue "PLAYLEVEL".toList defs).getD [] ∧
+      c.header.lnEnd = (lastValue "LNOBJ".toList defs).getD [] ∧
+      (lastValue "BPM".toList defs).bind parseFloat = some c.header.bpm0 := by
+  obtain ⟨hden', doc, hb, hp, hbh, _⟩ := denoteText_eq_denote lay lines d hden
+  have hhd := header_retained defaultGrid lay lay lines c d hr hden'
+  unfold bookDoc at hb
+  cases hl : allSome (lines.map bookLine) with
+  | none => simp [hl] at hb
+  | some ls =>
+    simp only [hl, Option.map_some, Option.some.injEq] at hb
+    subst hb
+    refine ⟨ls, rfl, ?_⟩
+    simp only at hbh ⊢
+    have hget : ∀ k, dictGet? (bookTable (ls.filterMap Line.headerOf)) k = lastValue k (ls.filterMap Line.headerOf) :=
+      fun k => dictGet?_bookTable _ k
+    unfold bookHeader at hbh
+    split at hbh
+    · cases hbh
+    · split at hbh
+      · cases hbh
+      · split at hbh
+        · cases hbh
+        · rename_i bpm0 hb0
+          injection hbh with hbh
+          rw [hhd, ← hbh]
+          simp only [hget] at hb0 ⊢
+          exact ⟨trivial, trivial, trivial, trivial, trivial, hb0⟩
 
 end Reamber.BMS
